@@ -316,6 +316,16 @@ SubOutcomes(impl, st, c, x) ==
     ELSE IF c.op = "glob" THEN
         {SubX(Strict(GlobK(st, SubTranslate(x, c), IF c.p.abs THEN Len(x.dir) ELSE 100 + Len(x.dir) + Len(x.vcwd))), x)}
     ELSE IF c.op = "walk" THEN {SubX(Strict(WalkDirK(st, SubTranslate(x, c), Len(x.dir))), x)}
+    ELSE IF c.op \in {"subwrite", "submkdir"} THEN
+        \* a view of a view: rooted at the translated directory, with a copy of this view's umask
+        LET tp == ToBaseD(x.dir, x.vcwd, c.p)
+            r == Res(st, tp, TRUE)
+            inner == [c EXCEPT !.op = IF c.op = "subwrite" THEN "writefile" ELSE "mkdir",
+                               !.p = [abs |-> TRUE, parts |-> tp.parts \o c.q.parts], !.perm = IF c.op = "subwrite" THEN 420 ELSE 493] IN
+        IF r.err # "ok" THEN {SubX(Strict(Fail(r.err, st)), x)}
+        ELSE IF r.id = 0 THEN {SubX(Strict(Fail("ENOENT", st)), x)}
+        ELSE IF ~IsDir(st, r.id) THEN {SubX(Strict(Fail("ENOTDIR", st)), x)}
+        ELSE {SubX([o EXCEPT !.st = [@ EXCEPT !.umask = st.umask]], x) : o \in Outcomes(impl, [st EXCEPT !.umask = x.umask], inner)}
     ELSE \* every other call: the parent's call on the translated path under the view's umask
         {SubX([o EXCEPT !.st = [@ EXCEPT !.umask = st.umask], !.res.path = ToVirtualD(x.dir, @)], x)
          : o \in Outcomes(impl, [st EXCEPT !.umask = x.umask], SubTranslate(x, c))}
